@@ -362,6 +362,14 @@ def r9_shared_tokenizer(ctx):
             yield o
 
 
+def r10_shared_position_counter(ctx):
+    """the position a segment is stamped with is the reader's running count within the set: every body segment counts
+    exactly once, ST restarts it (C04.R7, shared)"""
+    from . import c04
+    for o in c04.r7_header_semantics(ctx):
+        yield o
+
+
 RULES = [
     Rule('C09.R1', 'the tree under construction is yielded on every path to the end of the generator', r1_flush, floor=1),
     Rule('C09.R2', 'each source segment is placed in the tree or yielded exactly once per iteration', r2_one_disposition, floor=3),
@@ -369,6 +377,7 @@ RULES = [
     Rule('C09.R4', 'every self.method() in x12context resolves; _add_segment attaches to the computed loop, pops before pushes', r4_resolution_and_attachment, floor=18),
     Rule('C09.R5', 'shared with C10.R5: child loops are placed by map position after existing siblings', r5_shared_insertion, floor=6),
     Rule('C09.R6', 'nodes are compared by id/path, never by identity (the map object is replaced at a 278 BHT)', r6_no_identity_of_map_nodes, floor=1),
+    Rule('C09.R10', 'shared with C04.R7: the position counter counts every body segment once and restarts at ST (constant propagation)', r10_shared_position_counter, floor=1),
     Rule('C09.R9', 'shared with C01.R3/R5: the tokenizer ends only at end of input, nothing lost at a buffer boundary', r9_shared_tokenizer, floor=6),
     Rule('C09.R8', 'shared with C10.R3: the tombstone sweep keeps the live children in source order', r8_shared_children_order, floor=10),
     Rule('C09.R7', 'both drivers restart every functional group at the GS node of the transaction map', r7_reanchor_at_gs, floor=1),
